@@ -22,8 +22,13 @@ inside fails, a reloaded composite never keeps its own cache (`__setstate__` re-
 which resets it), so it is re-run and the theorems apply to its own level with the file's part for
 that level; the ownership tree itself is the subject of `C08_recovery_root_only`.
 
-`RCfg.now` is /repo as it is (fix 0699958 applied), `RCfg.repaired` adds the proposed
-fixes/C08-inflight-cache.patch, `RCfg.original` is the tree as first pinned.
+"Removing the cause" = the failing function works again and, possibly, unconnected inputs of some
+nodes get new values (`Fix.dirty`; such a node computes with the fresh symbol `Fix.sym`, and `A` is any
+set containing those nodes and everything downstream of them).
+
+`RCfg.now` is /repo as it is (fixes 0699958 and bc0a763 applied), `RCfg.repaired` adds the proposed
+fixes/C08-inflight-cache.patch, `RCfg.stale` is the tree before bc0a763 (all-of triggers keep what an
+interrupted run had collected), `RCfg.original` the tree as first pinned.
 -/
 namespace PwVerif.C08
 open PwVerif PwVerif.Exec PwVerif.Recovery
@@ -32,38 +37,77 @@ open PwVerif PwVerif.Exec PwVerif.Recovery
 def Cut (cfg : Cfg) (d : Dag) (s : S) : Prop := ∃ acts, runActs cfg d (init d) acts = some s
 
 /-- file written at the cut, loaded, flags cleared, cause removed, run again: any state of that run -/
-def Resumed (rc : RCfg) (cfg : Cfg) (d : Dag) (s : S) (rs : RS) : Prop :=
-  ∃ acts, rrunActs cfg d (resumeFrom rc d s) acts = some rs
+def Resumed (rc : RCfg) (fx : Fix) (cfg : Cfg) (d : Dag) (s : S) (rs : RS) : Prop :=
+  ∃ acts, rrunActs fx cfg d (resumeFrom rc d s) acts = some rs
 
-theorem resumed_inv {rc cfg d s rs} (wf : WF d) (hc : Cut cfg d s) (hok : CacheOK rc s)
-    (hr : Resumed rc cfg d s rs) : RInv d s.received (doneAt s) rs := by
+/-- the side conditions under which the restored graph can be trusted -/
+structure Sound (rc : RCfg) (fx : Fix) (d : Dag) (s : S) (A : Nat → Bool) : Prop where
+  cache    : CacheOK rc s
+  triggers : TriggersOK rc fx
+  affected : Affected fx d A
+  tight    : (∀ i, fx.dirty i = false) → ∀ i, A i = false
+
+theorem resumed_inv {rc fx cfg d s rs A} (wf : WF d) (hc : Cut cfg d s) (hs : Sound rc fx d s A)
+    (hr : Resumed rc fx cfg d s rs) :
+    SnapOK fx d (startReceived rc s) (kept s A) ∧
+    RInv fx d (startReceived rc s) (kept s A) (doneAt s) rs := by
   obtain ⟨acts, ha⟩ := hc
   obtain ⟨racts, hra⟩ := hr
   have hinv := runActs_inv cfg d wf acts _ _ (init_inv cfg d wf) ha
   have hargs := runActs_argsInv cfg d acts _ _ (init_argsInv d) ha
-  exact rrunActs_inv cfg (snapOK_of_cut hinv.core) wf racts _ _ (resume_inv rc wf hinv hargs hok) hra
+  have hok := snapOK_of_cut (rc := rc) hinv.core hs.affected hs.triggers hs.tight
+  exact ⟨hok, rrunActs_inv cfg hok wf racts _ _
+    (resume_inv rc fx A wf hinv hargs hs.cache hs.affected hs.triggers hs.tight) hra⟩
 
 /-! ## (b) the resumed run ends where an uninterrupted run ends -/
 
-/-- when the resumed run has returned, every child holds the value of the plain composition: its
-function applied to the first connection of every input -/
-theorem C08_resume_equations {rc cfg d s rs} (wf : WF d) (rank : Nat → Nat)
-    (hrank : ∀ i j, j ∈ d.deps i → rank j < rank i) (hc : Cut cfg d s) (hok : CacheOK rc s)
-    (hr : Resumed rc cfg d s rs) (hex : rs.s.phase = .exited) (i : Nat) (hm : d.member i) :
-    rs.s.st i = .done ∧ rs.s.out i = .app i (headArgs d rs.s.out i) := by
-  have hinv := resumed_inv wf hc hok hr
+/-- when the resumed run has returned, every child has run and holds the value of the plain
+composition: its function (with its own inputs as they are after the fix) applied to the first
+connection of every input -/
+theorem C08_resume_equations {rc fx cfg d s rs A} (wf : WF d) (rank : Nat → Nat)
+    (hrank : ∀ i j, j ∈ d.deps i → rank j < rank i) (hc : Cut cfg d s) (hs : Sound rc fx d s A)
+    (hr : Resumed rc fx cfg d s rs) (hex : rs.s.phase = .exited) (i : Nat) (hm : d.member i) :
+    rs.s.st i = .done ∧ rs.s.out i = .app (fx.sym i) (headArgs d rs.s.out i) := by
+  obtain ⟨hok, hinv⟩ := resumed_inv wf hc hs hr
   have hd := rexit_all_done wf rs hinv rank hrank hex i hm
-  obtain ⟨acts, ha⟩ := hc
-  have hcut := runActs_inv cfg d wf acts _ _ (init_inv cfg d wf) ha
-  exact ⟨hd, rgood_value (snapOK_of_cut hcut.core) rs hinv i (Or.inl hd)⟩
+  exact ⟨hd, rgood_value hok rs hinv i (Or.inl hd)⟩
 
-/-- … and these are exactly the outputs of ANY uninterrupted run of the same graph (same data
-connections; executor assignment, signal orders and schedule may all differ) -/
+/-- the value equations have one solution (C01_value_unique, for the symbols after the fix) -/
+theorem value_unique_sym (sym : Nat → Nat) (d : Dag) (wf : WF d) (rank : Nat → Nat)
+    (hrank : ∀ i j, j ∈ d.deps i → rank j < rank i) (o o' : Nat → Val)
+    (ho : ∀ i, d.member i → o i = .app (sym i) (headArgs d o i))
+    (ho' : ∀ i, d.member i → o' i = .app (sym i) (headArgs d o' i)) :
+    ∀ i, d.member i → o i = o' i := by
+  have key : ∀ n i, rank i < n → d.member i → o i = o' i := by
+    intro n
+    induction n with
+    | zero => intro i hi; omega
+    | succ n ih =>
+      intro i hi hm
+      rw [ho i hm, ho' i hm]
+      congr 1
+      unfold headArgs
+      apply List.map_congr_left
+      intro cs hcs
+      cases cs with
+      | nil => rfl
+      | cons c cs' =>
+        have hc : c ∈ d.deps i := mem_deps_of_slot d i _ c hcs (by simp)
+        apply ih c (by have := hrank i c hc; omega)
+        by_cases hd : d.deps c = []
+        · exact Or.inl (wf.rootsStart i c hc hd)
+        · exact Or.inr hd
+  intro i
+  exact key (rank i + 1) i (by omega)
+
+/-- no input changed: the outputs are exactly those of ANY uninterrupted run (`Exec`, C01) of the same
+graph — executor assignment, signal orders and schedule may all differ -/
 theorem C08_resume_same_end {rc cfg cfg0 d d0 s rs c} (wf : WF d) (wf0 : WF d0) (rank : Nat → Nat)
     (hrank : ∀ i j, j ∈ d.deps i → rank j < rank i)
     (hsl : d0.slots = d.slots) (hst : ∀ i, i ∈ d0.starters ↔ i ∈ d.starters)
     (hnf : C01.NoFaults d0) (hclean : C01.Reach cfg0 d0 c) (hcex : c.phase = .exited)
-    (hc : Cut cfg d s) (hok : CacheOK rc s) (hr : Resumed rc cfg d s rs) (hex : rs.s.phase = .exited) :
+    (hc : Cut cfg d s) (hs : Sound rc Fix.none d s (fun _ => false))
+    (hr : Resumed rc Fix.none cfg d s rs) (hex : rs.s.phase = .exited) :
     ∀ i, d.member i → rs.s.out i = c.out i := by
   have hdeps : ∀ i, d0.deps i = d.deps i := by intro i; simp [Dag.deps, hsl]
   have hmem : ∀ i, d.member i → d0.member i := by
@@ -76,98 +120,132 @@ theorem C08_resume_same_end {rc cfg cfg0 d d0 s rs c} (wf : WF d) (wf0 : WF d0) 
     intro i j hj; rw [hdeps] at hj; exact hrank i j hj
   apply C01.C01_value_unique d wf rank hrank
   · intro i hm
-    exact (C08_resume_equations wf rank hrank hc hok hr hex i hm).2
+    have := (C08_resume_equations wf rank hrank hc hs hr hex i hm).2
+    simpa [Fix.sym, Fix.none] using this
   · intro i hm
     rw [← hhead]
     exact C01.C01_value wf0 rank hrank0 hnf hclean hcex i (hmem i hm)
 
+/-- inputs changed: the outputs are exactly those of a run of the same graph, with the same new
+inputs, that starts from nothing (`init`: nothing completed, nothing cached) -/
+theorem C08_resume_same_end_changed {rc rc0 fx cfg cfg0 d s rs c A A0} (wf : WF d) (rank : Nat → Nat)
+    (hrank : ∀ i j, j ∈ d.deps i → rank j < rank i)
+    (hs0 : Sound rc0 fx d (init d) A0) (hfresh : Resumed rc0 fx cfg0 d (init d) c) (hcex : c.s.phase = .exited)
+    (hc : Cut cfg d s) (hs : Sound rc fx d s A) (hr : Resumed rc fx cfg d s rs) (hex : rs.s.phase = .exited) :
+    ∀ i, d.member i → rs.s.out i = c.s.out i := by
+  apply value_unique_sym fx.sym d wf rank hrank
+  · intro i hm; exact (C08_resume_equations wf rank hrank hc hs hr hex i hm).2
+  · intro i hm; exact (C08_resume_equations wf rank hrank ⟨[], rfl⟩ hs0 hfresh hcex i hm).2
+
 /-! ## (c) completed nodes are not executed again, the others are — exactly once -/
 
 /-- at every moment of the resumed run: the function of a node that had completed before the cut
-has not been called -/
-theorem C08_no_recall {rc cfg d s rs} (wf : WF d) (hc : Cut cfg d s) (hok : CacheOK rc s)
-    (hr : Resumed rc cfg d s rs) (i : Nat) (hi : s.st i = .done) : rs.fcalls i = 0 := by
-  have := (resumed_inv wf hc hok hr).book.fc i
-  simpa [doneAt, hi] using this
+(and whose inputs are not touched by the fix) has not been called -/
+theorem C08_no_recall {rc fx cfg d s rs A} (wf : WF d) (hc : Cut cfg d s) (hs : Sound rc fx d s A)
+    (hr : Resumed rc fx cfg d s rs) (i : Nat) (hi : s.st i = .done) (ha : A i = false) :
+    rs.fcalls i = 0 :=
+  (resumed_inv wf hc hs hr).2.book.fcG i (by simp [kept, doneAt, hi, ha])
 
 /-- no function is ever called twice, and when the resumed run has returned every node that had NOT
-completed before the cut (the failed node, everything downstream of it, whatever was in flight) has
-been executed exactly once -/
-theorem C08_rest_runs_once {rc cfg d s rs} (wf : WF d) (rank : Nat → Nat)
-    (hrank : ∀ i j, j ∈ d.deps i → rank j < rank i) (hc : Cut cfg d s) (hok : CacheOK rc s)
-    (hr : Resumed rc cfg d s rs) :
+completed before the cut (the failed node, everything downstream of it, whatever was in flight) and
+every node that got new inputs has been executed exactly once -/
+theorem C08_rest_runs_once {rc fx cfg d s rs A} (wf : WF d) (rank : Nat → Nat)
+    (hrank : ∀ i j, j ∈ d.deps i → rank j < rank i) (hc : Cut cfg d s) (hs : Sound rc fx d s A)
+    (hr : Resumed rc fx cfg d s rs) :
     (∀ i, rs.fcalls i ≤ 1) ∧
-    (rs.s.phase = .exited → ∀ i, d.member i → s.st i ≠ .done → rs.fcalls i = 1) := by
-  have hinv := resumed_inv wf hc hok hr
-  refine ⟨?_, ?_⟩
-  · intro i
-    have := hinv.book.fc i
-    split at this <;> omega
-  · intro hex i hm hi
-    have hd := rexit_all_done wf rs hinv rank hrank hex i hm
-    have := hinv.book.fc i
-    simpa [doneAt, hi, hd] using this
+    (rs.s.phase = .exited → ∀ i, d.member i → (s.st i ≠ .done ∨ fx.dirty i = true) → rs.fcalls i = 1) := by
+  obtain ⟨_, hinv⟩ := resumed_inv wf hc hs hr
+  refine ⟨hinv.book.fcLe, ?_⟩
+  intro hex i hm hi
+  have hd := rexit_all_done wf rs hinv rank hrank hex i hm
+  rcases hi with hi | hi
+  · exact hinv.book.fcN i (by simp [doneAt, hi]) (by simp [hd])
+  · exact hinv.book.fcD i hi (by simp [hd])
 
 /-- the resumed run never raises, nothing fails, and (when it has returned) nothing is left running -/
-theorem C08_resume_no_error {rc cfg d s rs} (wf : WF d) (hc : Cut cfg d s) (hok : CacheOK rc s)
-    (hr : Resumed rc cfg d s rs) :
+theorem C08_resume_no_error {rc fx cfg d s rs A} (wf : WF d) (hc : Cut cfg d s) (hs : Sound rc fx d s A)
+    (hr : Resumed rc fx cfg d s rs) :
     rs.s.errs = [] ∧ rs.s.phase ≠ .aborted ∧ (∀ i, rs.s.st i ≠ .failed) ∧
     (rs.s.phase = .exited → rs.s.running = [] ∧ rs.s.queue = []) := by
-  have hinv := resumed_inv wf hc hok hr
+  obtain ⟨_, hinv⟩ := resumed_inv wf hc hs hr
   refine ⟨hinv.core.noErr, hinv.notAborted, hinv.core.noFail, ?_⟩
   intro hex
   obtain ⟨hq, hrun, _⟩ := hinv.phase.exited hex
   exact ⟨hrun, hq⟩
 
-/-- a node of the resumed run starts only when every node it takes data from holds its final output
-(produced in this run, or kept from before the cut) -/
-theorem C08_resume_order {rc cfg d s rs} (wf : WF d) (hc : Cut cfg d s) (hok : CacheOK rc s)
-    (hr : Resumed rc cfg d s rs) (i j : Nat) (hi : rs.s.st i ≠ .idle) (hj : j ∈ d.deps i) :
-    rs.s.st j = .done ∨ s.st j = .done := by
-  rcases (resumed_inv wf hc hok hr).core.avail i j hi hj with h | h
+/-- a node of the resumed run starts only when every node it takes data from holds its final output:
+produced in this run, or kept from before the cut and untouched by the fix -/
+theorem C08_resume_order {rc fx cfg d s rs A} (wf : WF d) (hc : Cut cfg d s) (hs : Sound rc fx d s A)
+    (hr : Resumed rc fx cfg d s rs) (i j : Nat) (hi : rs.s.st i ≠ .idle) (hj : j ∈ d.deps i) :
+    rs.s.st j = .done ∨ (s.st j = .done ∧ A j = false) := by
+  rcases (resumed_inv wf hc hs hr).2.core.avail i j hi hj with h | h
   · exact Or.inl h
-  · right; simpa [doneAt] using h
+  · right; simpa [kept, doneAt] using h
 
 /-- until it has returned the resumed run can always take a step -/
-theorem C08_resume_progress {rc cfg d s rs} (wf : WF d) (hc : Cut cfg d s) (hok : CacheOK rc s)
-    (hr : Resumed rc cfg d s rs) (r : List Nat) (hph : rs.s.phase = .run r) :
-    ∃ a rs', rstep cfg d rs a = some rs' :=
-  rprogress cfg rs (resumed_inv wf hc hok hr) r hph
+theorem C08_resume_progress {rc fx cfg d s rs A} (wf : WF d) (hc : Cut cfg d s) (hs : Sound rc fx d s A)
+    (hr : Resumed rc fx cfg d s rs) (r : List Nat) (hph : rs.s.phase = .run r) :
+    ∃ a rs', rstep fx cfg d rs a = some rs' :=
+  rprogress cfg rs (resumed_inv wf hc hs hr).2 r hph
 
 /-! ## the full statement per configuration -/
 
 /-- the statement of the property for one composite level -/
 def ResumeStatement (rc : RCfg) (cfg : Cfg) : Prop :=
-  ∀ (d : Dag) (s : S) (rs : RS) (rank : Nat → Nat), WF d → (∀ i j, j ∈ d.deps i → rank j < rank i) →
-    Cut cfg d s → Resumed rc cfg d s rs → rs.s.phase = .exited →
-    (∀ i, d.member i → rs.s.out i = .app i (headArgs d rs.s.out i)) ∧ (∀ i, s.st i = .done → rs.fcalls i = 0)
+  ∀ (d : Dag) (s : S) (fx : Fix) (A : Nat → Bool) (rs : RS) (rank : Nat → Nat),
+    WF d → (∀ i j, j ∈ d.deps i → rank j < rank i) → Affected fx d A →
+    ((∀ i, fx.dirty i = false) → ∀ i, A i = false) →
+    Cut cfg d s → Resumed rc fx cfg d s rs → rs.s.phase = .exited →
+    (∀ i, d.member i → rs.s.out i = .app (fx.sym i) (headArgs d rs.s.out i)) ∧
+    (∀ i, s.st i = .done → A i = false → rs.fcalls i = 0)
 
-theorem cacheOK_repaired (s : S) : CacheOK RCfg.repaired s := ⟨Or.inl rfl, Or.inl rfl⟩
+theorem statement_of_sound {rc cfg}
+    (h : ∀ (d : Dag) (s : S) (fx : Fix) (A : Nat → Bool), Cut cfg d s → Affected fx d A →
+      ((∀ i, fx.dirty i = false) → ∀ i, A i = false) → Sound rc fx d s A) :
+    ResumeStatement rc cfg := by
+  intro d s fx A rs rank wf hrank hA hA0 hc hr hex
+  have hs := h d s fx A hc hA hA0
+  exact ⟨fun i hm => (C08_resume_equations wf rank hrank hc hs hr hex i hm).2,
+    fun i hi ha => C08_no_recall wf hc hs hr i hi ha⟩
 
-/-- REPAIRED code: every cut — recovery file or checkpoint, whatever is in flight -/
-theorem C08_resume_repaired (cfg : Cfg) : ResumeStatement RCfg.repaired cfg := by
-  intro d s rs rank wf hrank hc hr hex
-  refine ⟨fun i hm => (C08_resume_equations wf rank hrank hc (cacheOK_repaired s) hr hex i hm).2, ?_⟩
-  intro i hi
-  exact C08_no_recall wf hc (cacheOK_repaired s) hr i hi
+/-- REPAIRED code: every cut — recovery file or checkpoint, whatever is in flight — and every fix -/
+theorem C08_resume_repaired (cfg : Cfg) : ResumeStatement RCfg.repaired cfg :=
+  statement_of_sound (fun _ _ _ _ _ hA hA0 => ⟨⟨Or.inl rfl, Or.inl rfl⟩, Or.inl rfl, hA, hA0⟩)
 
 /-- the code as it is NOW, partial: every cut at which no child is in flight on an executor -/
-theorem C08_resume_now_partial {cfg d s rs} (wf : WF d) (rank : Nat → Nat)
-    (hrank : ∀ i j, j ∈ d.deps i → rank j < rank i) (hc : Cut cfg d s)
-    (hquiet : ∀ i, s.st i ≠ .out) (hr : Resumed RCfg.now cfg d s rs) (hex : rs.s.phase = .exited) :
-    (∀ i, d.member i → rs.s.out i = .app i (headArgs d rs.s.out i)) ∧ (∀ i, s.st i = .done → rs.fcalls i = 0) := by
-  have hok : CacheOK RCfg.now s := ⟨Or.inr hquiet, Or.inl rfl⟩
-  refine ⟨fun i hm => (C08_resume_equations wf rank hrank hc hok hr hex i hm).2, ?_⟩
-  intro i hi
-  exact C08_no_recall wf hc hok hr i hi
+theorem C08_resume_now_partial {fx cfg d s rs A} (wf : WF d) (rank : Nat → Nat)
+    (hrank : ∀ i j, j ∈ d.deps i → rank j < rank i) (hA : Affected fx d A)
+    (hA0 : (∀ i, fx.dirty i = false) → ∀ i, A i = false) (hc : Cut cfg d s)
+    (hquiet : ∀ i, s.st i ≠ .out) (hr : Resumed RCfg.now fx cfg d s rs) (hex : rs.s.phase = .exited) :
+    (∀ i, d.member i → rs.s.out i = .app (fx.sym i) (headArgs d rs.s.out i)) ∧
+    (∀ i, s.st i = .done → A i = false → rs.fcalls i = 0) := by
+  have hs : Sound RCfg.now fx d s A := ⟨⟨Or.inr hquiet, Or.inl rfl⟩, Or.inl rfl, hA, hA0⟩
+  exact ⟨fun i hm => (C08_resume_equations wf rank hrank hc hs hr hex i hm).2,
+    fun i hi ha => C08_no_recall wf hc hs hr i hi ha⟩
 
 /-- the code as it is NOW: the RECOVERY file (written when the failed run has returned) always
 resumes to the same end — by C06 nothing is in flight when the loop has exited -/
-theorem C08_recovery_now {cfg d s rs} (wf : WF d) (rank : Nat → Nat)
-    (hrank : ∀ i j, j ∈ d.deps i → rank j < rank i) (hc : Cut cfg d s) (hend : s.phase = .exited)
-    (hr : Resumed RCfg.now cfg d s rs) (hex : rs.s.phase = .exited) :
-    (∀ i, d.member i → rs.s.out i = .app i (headArgs d rs.s.out i)) ∧ (∀ i, s.st i = .done → rs.fcalls i = 0) :=
-  C08_resume_now_partial wf rank hrank hc (C06.C06_nobody_running_exited wf hc hend).2 hr hex
+theorem C08_recovery_now {fx cfg d s rs A} (wf : WF d) (rank : Nat → Nat)
+    (hrank : ∀ i j, j ∈ d.deps i → rank j < rank i) (hA : Affected fx d A)
+    (hA0 : (∀ i, fx.dirty i = false) → ∀ i, A i = false) (hc : Cut cfg d s) (hend : s.phase = .exited)
+    (hr : Resumed RCfg.now fx cfg d s rs) (hex : rs.s.phase = .exited) :
+    (∀ i, d.member i → rs.s.out i = .app (fx.sym i) (headArgs d rs.s.out i)) ∧
+    (∀ i, s.st i = .done → A i = false → rs.fcalls i = 0) :=
+  C08_resume_now_partial wf rank hrank hA hA0 hc (C06.C06_nobody_running_exited wf hc hend).2 hr hex
+
+/-- the code BEFORE fix bc0a763 (triggers keep the tokens of the interrupted run), partial: nothing
+in flight and no input changed — then the early firings it allows are harmless -/
+theorem C08_resume_stale_partial {cfg d s rs} (wf : WF d) (rank : Nat → Nat)
+    (hrank : ∀ i j, j ∈ d.deps i → rank j < rank i) (hc : Cut cfg d s)
+    (hquiet : ∀ i, s.st i ≠ .out) (hr : Resumed RCfg.stale Fix.none cfg d s rs) (hex : rs.s.phase = .exited) :
+    (∀ i, d.member i → rs.s.out i = .app i (headArgs d rs.s.out i)) ∧
+    (∀ i, s.st i = .done → rs.fcalls i = 0) := by
+  have hs : Sound RCfg.stale Fix.none d s (fun _ => false) :=
+    ⟨⟨Or.inr hquiet, Or.inl rfl⟩, Or.inr (fun _ => rfl), ⟨fun i h => by simp [Fix.none] at h, fun _ _ _ h => h⟩,
+     fun _ _ => rfl⟩
+  refine ⟨fun i hm => ?_, fun i hi => C08_no_recall wf hc hs hr i hi rfl⟩
+  have := (C08_resume_equations wf rank hrank hc hs hr hex i hm).2
+  simpa [Fix.sym, Fix.none] using this
 
 /-! ## (d) checkpoints -/
 
@@ -187,7 +265,7 @@ theorem CheckpointCut.cut {cfg d c s} (h : CheckpointCut cfg d c s) : Cut cfg d 
       intro t ht
       simp only [runActs, List.cons_append] at ht ⊢
       split at ht
-      · rename_i t1 ht1; rw [ht1]; exact ih t1 ht
+      · rename_i t1 ht1; exact ih t1 ht
       · simp at ht
   exact this acts _ h0
 
@@ -195,14 +273,34 @@ theorem CheckpointCut.cut {cfg d c s} (h : CheckpointCut cfg d c s) : Cut cfg d 
 resumes to the same end, re-executing nothing that had completed (`c` itself included) -/
 theorem C08_checkpoint_repaired {cfg d c s rs} (wf : WF d) (rank : Nat → Nat)
     (hrank : ∀ i j, j ∈ d.deps i → rank j < rank i) (hc : CheckpointCut cfg d c s)
-    (hr : Resumed RCfg.repaired cfg d s rs) (hex : rs.s.phase = .exited) :
+    (hr : Resumed RCfg.repaired Fix.none cfg d s rs) (hex : rs.s.phase = .exited) :
     (∀ i, d.member i → rs.s.out i = .app i (headArgs d rs.s.out i)) ∧
     (∀ i, s.st i = .done → rs.fcalls i = 0) ∧ rs.fcalls c = 0 := by
-  obtain ⟨h1, h2⟩ := C08_resume_repaired cfg d s rs rank wf hrank hc.cut hr hex
+  have hA : Affected Fix.none d (fun _ => false) := ⟨fun i h => by simp [Fix.none] at h, fun _ _ _ h => h⟩
+  obtain ⟨h1, h2⟩ := C08_resume_repaired cfg d s Fix.none (fun _ => false) rs rank wf hrank hA (fun _ _ => rfl)
+    hc.cut hr hex
   obtain ⟨_, _, _, _, _, _, hcd⟩ := hc
-  exact ⟨h1, h2, h2 c hcd⟩
+  refine ⟨fun i hm => ?_, fun i hi => h2 i hi rfl, h2 c hcd rfl⟩
+  simpa [Fix.sym, Fix.none] using h1 i hm
 
-/-! ### machine-checked counterexamples (both replayed on the real code by harness/pwh/c08.py) -/
+/-- the code as it is NOW, partial: the checkpoint of a child written while no sibling is in flight -/
+theorem C08_checkpoint_now_partial {cfg d c s rs} (wf : WF d) (rank : Nat → Nat)
+    (hrank : ∀ i j, j ∈ d.deps i → rank j < rank i) (hc : CheckpointCut cfg d c s)
+    (hquiet : ∀ i, s.st i ≠ .out)
+    (hr : Resumed RCfg.now Fix.none cfg d s rs) (hex : rs.s.phase = .exited) :
+    (∀ i, d.member i → rs.s.out i = .app i (headArgs d rs.s.out i)) ∧
+    (∀ i, s.st i = .done → rs.fcalls i = 0) ∧ rs.fcalls c = 0 := by
+  have hA : Affected Fix.none d (fun _ => false) := ⟨fun i h => by simp [Fix.none] at h, fun _ _ _ h => h⟩
+  obtain ⟨h1, h2⟩ := C08_resume_now_partial wf rank hrank hA (fun _ _ => rfl) hc.cut hquiet hr hex
+  obtain ⟨_, _, _, _, _, _, hcd⟩ := hc
+  refine ⟨fun i hm => ?_, fun i hi => h2 i hi rfl, h2 c hcd rfl⟩
+  simpa [Fix.sym, Fix.none] using h1 i hm
+
+/-! ### machine-checked counterexamples (all replayed on the real code by harness/pwh/c08.py) -/
+
+theorem affected_all (fx : Fix) (d : Dag) : Affected fx d (fun _ => true) := ⟨fun _ _ => rfl, fun _ _ _ _ => rfl⟩
+theorem affected_none (d : Dag) : Affected Fix.none d (fun _ => false) :=
+  ⟨fun i h => by simp [Fix.none] at h, fun _ _ _ h => h⟩
 
 /-- roots `0` (on an executor) and `1` (local, checkpointing), `2` takes data from both -/
 def wFlight : FinDag :=
@@ -211,54 +309,118 @@ def wFlight : FinDag :=
 
 /-- first run: `0` submitted, `1` runs to the end and writes the checkpoint — cut here -/
 def actsFlight : List Act := [.start, .start]
-theorem someFlight : (runActs Cfg.repaired wFlight.toDag (init wFlight.toDag) actsFlight).isSome = true := by decide
+theorem someFlight : (runActs Cfg.repaired wFlight.toDag (init wFlight.toDag) actsFlight).isSome = true := by
+  decide +kernel
 def sFlight : S := (runActs Cfg.repaired wFlight.toDag (init wFlight.toDag) actsFlight).get someFlight
 theorem cutFlight : Cut Cfg.repaired wFlight.toDag sFlight := ⟨actsFlight, (Option.some_get someFlight).symm⟩
 
 /-- resumed run: `0` and `1` both answer from cache, `2` runs, exit -/
 def ractsFlight : List Act := [.start, .start, .deliver, .deliver, .exit]
-theorem someRFlight : (rrunActs Cfg.repaired wFlight.toDag (resumeFrom RCfg.now wFlight.toDag sFlight) ractsFlight).isSome = true := by
-  decide
-def rsFlight : RS := (rrunActs Cfg.repaired wFlight.toDag (resumeFrom RCfg.now wFlight.toDag sFlight) ractsFlight).get someRFlight
+theorem someRFlight : (rrunActs Fix.none Cfg.repaired wFlight.toDag (resumeFrom RCfg.now wFlight.toDag sFlight)
+    ractsFlight).isSome = true := by
+  decide +kernel
+def rsFlight : RS := (rrunActs Fix.none Cfg.repaired wFlight.toDag (resumeFrom RCfg.now wFlight.toDag sFlight)
+    ractsFlight).get someRFlight
+
+/-- what goes wrong in that run -/
+theorem C08_inflight_cache_detail :
+    rsFlight.s.phase = .exited ∧ rsFlight.s.errs = [] ∧ rsFlight.fcalls 0 = 0 ∧ rsFlight.s.out 0 = .nd ∧
+    rsFlight.s.out 2 = .app 2 [.app 1 [], .d] := by
+  decide +kernel
 
 /-- NOW: a checkpoint written while a sibling is in flight cannot be resumed: the in-flight node's
 `_cached_inputs` are in the file, it takes a cache hit, is never executed, its output stays NOT_DATA
 and the node downstream silently runs on its default -/
 theorem C08_inflight_cache_witness : ¬ ResumeStatement RCfg.now Cfg.repaired := by
   intro hS
-  obtain ⟨hwf, hrk⟩ := FinDag.check_sound wFlight (by decide)
-  have := (hS wFlight.toDag sFlight rsFlight wFlight.rankF hwf hrk cutFlight
-    ⟨ractsFlight, (Option.some_get someRFlight).symm⟩ (by decide)).1 0 (Or.inl (by decide))
-  revert this
-  decide
+  obtain ⟨hwf, hrk⟩ := FinDag.check_sound wFlight (by decide +kernel)
+  have := (hS wFlight.toDag sFlight Fix.none (fun _ => false) rsFlight wFlight.rankF hwf hrk
+    (affected_none _) (fun _ _ => rfl) cutFlight
+    ⟨ractsFlight, (Option.some_get someRFlight).symm⟩ C08_inflight_cache_detail.1).1 0 (Or.inl (by decide))
+  rw [C08_inflight_cache_detail.2.2.2.1] at this
+  cases this
 
-/-- what exactly goes wrong in that run -/
-theorem C08_inflight_cache_detail :
-    rsFlight.s.phase = .exited ∧ rsFlight.s.errs = [] ∧ rsFlight.fcalls 0 = 0 ∧ rsFlight.s.out 0 = .nd ∧
-    rsFlight.s.out 2 = .app 2 [.app 1 [], .d] := by
-  decide
+/-- `0 → 2 ← 1`, `1` on an executor; `0` raises in the first run -/
+def wStale : FinDag :=
+  { n := 3, slots := [[], [], [[0], [1]]], down := [[2], [2]], starters := [0, 1],
+    onExec := [false, true, false], fails := [true, false, false], rank := [0, 0, 1] }
+
+/-- first run: `0` raises, `1` is submitted and completes, its token reaches `2`'s trigger, exit -/
+def actsStale : List Act := [.start, .start, .complete 1, .deliver, .exit]
+theorem someStale : (runActs Cfg.repaired wStale.toDag (init wStale.toDag) actsStale).isSome = true := by
+  decide +kernel
+def sStale : S := (runActs Cfg.repaired wStale.toDag (init wStale.toDag) actsStale).get someStale
+
+/-- the fix: `0` works again and node `1` gets a new own input -/
+def fxStale : Fix := { dirty := fun i => i == 1, off := 3 }
+
+/-- resumed run: `0` runs, `1` (new input: no cache hit) is submitted again, `0`'s token completes
+`2`'s trigger — which still holds `1`'s token of the FIRST run — so `2` runs now, on `1`'s OLD output;
+then `1` completes -/
+def ractsStale : List Act := [.start, .start, .deliver, .complete 1, .deliver, .exit]
+theorem someRStale : (rrunActs fxStale Cfg.repaired wStale.toDag (resumeFrom RCfg.stale wStale.toDag sStale)
+    ractsStale).isSome = true := by
+  decide +kernel
+def rsStale : RS := (rrunActs fxStale Cfg.repaired wStale.toDag (resumeFrom RCfg.stale wStale.toDag sStale)
+    ractsStale).get someRStale
+
+theorem C08_stale_trigger_detail :
+    rsStale.s.phase = .exited ∧ rsStale.s.errs = [] ∧ rsStale.s.execLog = [0, 1, 2] ∧
+    rsStale.s.doneLog = [0, 2, 1] ∧ rsStale.s.out 1 = .app 4 [] ∧
+    rsStale.s.out 2 = .app 2 [.app 0 [], .app 1 []] := by
+  decide +kernel
+
+/-- BEFORE fix bc0a763: with a changed input the resumed run ends somewhere else — a trigger that kept
+a token of the interrupted run fires before the re-executed upstream node has finished -/
+theorem C08_stale_trigger_witness : ¬ ResumeStatement RCfg.stale Cfg.repaired := by
+  intro hS
+  obtain ⟨hwf, hrk⟩ := FinDag.check_sound wStale (by decide +kernel)
+  have := (hS wStale.toDag sStale fxStale (fun _ => true) rsStale wStale.rankF hwf hrk
+    (affected_all _ _) (fun h => by have := h 1; simp [fxStale] at this)
+    ⟨actsStale, (Option.some_get someStale).symm⟩
+    ⟨ractsStale, (Option.some_get someRStale).symm⟩ C08_stale_trigger_detail.1).1 2 (Or.inr (by decide))
+  rw [C08_stale_trigger_detail.2.2.2.2.2] at this
+  have h1 : headArgs wStale.toDag rsStale.s.out 2 = [rsStale.s.out 0, rsStale.s.out 1] := by
+    simp [headArgs, FinDag.toDag, wStale]
+  rw [h1, C08_stale_trigger_detail.2.2.2.2.1] at this
+  simp at this
+
+/-- the same cut and the same fix on the code as it is NOW: `2` waits for the re-executed `1` -/
+theorem C08_stale_trigger_now :
+    ((rrunActs fxStale Cfg.repaired wStale.toDag (resumeFrom RCfg.now wStale.toDag sStale)
+        [.start, .start, .deliver, .complete 1, .deliver, .exit]).map
+      (fun r => (r.s.phase, r.s.execLog, r.s.out 2)))
+    = some (.exited, [0, 1, 2], .app 2 [.app 0 [], .app 4 []]) := by
+  decide +kernel
 
 /-- `0 → 1`, `0` raises -/
 def wFail : FinDag :=
   { n := 2, slots := [[], [[0]]], down := [[1], []], starters := [0], onExec := [false, false],
     fails := [true, false], rank := [0, 1] }
 def actsFail : List Act := [.start, .exit]
-theorem someFail : (runActs Cfg.repaired wFail.toDag (init wFail.toDag) actsFail).isSome = true := by decide
+theorem someFail : (runActs Cfg.repaired wFail.toDag (init wFail.toDag) actsFail).isSome = true := by decide +kernel
 def sFail : S := (runActs Cfg.repaired wFail.toDag (init wFail.toDag) actsFail).get someFail
 def ractsFail : List Act := [.start, .deliver, .exit]
-theorem someRFail : (rrunActs Cfg.repaired wFail.toDag (resumeFrom RCfg.original wFail.toDag sFail) ractsFail).isSome = true := by
-  decide
-def rsFail : RS := (rrunActs Cfg.repaired wFail.toDag (resumeFrom RCfg.original wFail.toDag sFail) ractsFail).get someRFail
+theorem someRFail : (rrunActs Fix.none Cfg.repaired wFail.toDag (resumeFrom RCfg.original wFail.toDag sFail)
+    ractsFail).isSome = true := by
+  decide +kernel
+def rsFail : RS := (rrunActs Fix.none Cfg.repaired wFail.toDag (resumeFrom RCfg.original wFail.toDag sFail)
+    ractsFail).get someRFail
+
+theorem C08_original_stale_cache_detail :
+    rsFail.s.phase = .exited ∧ rsFail.fcalls 0 = 0 ∧ rsFail.s.out 0 = .nd ∧ rsFail.s.out 1 = .app 1 [.d] := by
+  decide +kernel
 
 /-- ORIGINALLY pinned (before fix 0699958): the failed node itself keeps the inputs it failed on in
 its cache; after `failed = False` it takes a cache hit and is never executed again -/
 theorem C08_original_stale_cache_witness : ¬ ResumeStatement RCfg.original Cfg.repaired := by
   intro hS
-  obtain ⟨hwf, hrk⟩ := FinDag.check_sound wFail (by decide)
-  have := (hS wFail.toDag sFail rsFail wFail.rankF hwf hrk ⟨actsFail, (Option.some_get someFail).symm⟩
-    ⟨ractsFail, (Option.some_get someRFail).symm⟩ (by decide)).1 0 (Or.inl (by decide))
-  revert this
-  decide
+  obtain ⟨hwf, hrk⟩ := FinDag.check_sound wFail (by decide +kernel)
+  have := (hS wFail.toDag sFail Fix.none (fun _ => false) rsFail wFail.rankF hwf hrk
+    (affected_none _) (fun _ _ => rfl) ⟨actsFail, (Option.some_get someFail).symm⟩
+    ⟨ractsFail, (Option.some_get someRFail).symm⟩ C08_original_stale_cache_detail.1).1 0 (Or.inl (by decide))
+  rw [C08_original_stale_cache_detail.2.2.1] at this
+  cases this
 
 /-! ## (a) the recovery file is written once, by the root, and only there -/
 
@@ -268,8 +430,7 @@ file exists and it is in the root's directory; no child, no macro in between wri
 theorem C08_recovery_root_only (f : Forest) (depth : Nat → Nat) (hr : f.Ranked depth) (fuel : Nat)
     (nodes ks : List Nat) (r : Nat) (hnd : nodes.Nodup) (hfuel : ∀ n ∈ nodes, depth n ≤ fuel)
     (hrn : r ∈ nodes) (hrec : f.recovery r = true)
-    (hks : ks ≠ []) (hkn : ∀ k ∈ ks, k ∈ nodes ∧ f.root fuel k = r)
-    (hclosed : ∀ k ∈ ks, ∀ m ∈ f.chain fuel k, m ∈ nodes) :
+    (hks : ks ≠ []) (hkn : ∀ k ∈ ks, k ∈ nodes ∧ f.root fuel k = r) :
     f.recoveryFiles fuel nodes ks = [r] ∧ f.parent r = none := by
   obtain ⟨k0, hk0⟩ := List.exists_mem_of_ne_nil _ hks
   have hrp : f.parent r = none := by
@@ -306,58 +467,83 @@ def exF : FinDag :=
     starters := [0], onExec := [false, true, false, false, false], fails := [false, false, true, false, false],
     rank := [0, 1, 1, 2, 1] }
 
-example : WF exF.toDag := (FinDag.check_sound exF (by decide)).1
+theorem exWF : WF exF.toDag := (FinDag.check_sound exF (by decide +kernel)).1
 
 /-- the failed run: `2` raises, `1` completes later, `4` runs, `3` never starts (its trigger keeps the
 token of `1`: a stale `received` entry goes into the file) -/
 def exActs : List Act := [.start, .deliver, .deliver, .deliver, .complete 1, .deliver, .exit]
-theorem exSome : (runActs Cfg.repaired exF.toDag (init exF.toDag) exActs).isSome = true := by decide
+theorem exSome : (runActs Cfg.repaired exF.toDag (init exF.toDag) exActs).isSome = true := by decide +kernel
 def exS : S := (runActs Cfg.repaired exF.toDag (init exF.toDag) exActs).get exSome
+theorem exCut : Cut Cfg.repaired exF.toDag exS := ⟨exActs, (Option.some_get exSome).symm⟩
 
 example : (exS.phase, exS.errs, [0, 1, 2, 3, 4].map exS.st, exS.received 3)
-    = (.exited, [2], [.done, .done, .failed, .idle, .done], [1]) := by decide
-example : Cut Cfg.repaired exF.toDag exS := ⟨exActs, (Option.some_get exSome).symm⟩
-example : CacheOK RCfg.now exS :=
-  ⟨Or.inr (C06.C06_nobody_running_exited (FinDag.check_sound exF (by decide)).1
-      ⟨exActs, (Option.some_get exSome).symm⟩ (by decide)).2, Or.inl rfl⟩
+    = (.exited, [2], [.done, .done, .failed, .idle, .done], [1]) := by decide +kernel
 
-/-- the resumed run (code as it is now): `0`, `1`, `4` answer from cache, `2` runs, and `3` fires on the
-arrival of `2`'s token alone — BEFORE the token of the re-run `1` is delivered — because `1`'s token of the
-first run is still in its trigger; the late token is then left over in `received 3` -/
+/-- the hypotheses of the theorems hold at this cut, for the code as it is now, with a changed input at `4` -/
+def exFx : Fix := { dirty := fun i => i == 4, off := 5 }
+def exA : Nat → Bool := fun i => i == 4
+example : Sound RCfg.now exFx exF.toDag exS exA := by
+  refine ⟨⟨Or.inr (C06.C06_nobody_running_exited exWF exCut (by decide +kernel)).2, Or.inl rfl⟩, Or.inl rfl,
+    ⟨fun i h => by simpa [exFx, exA] using h, ?_⟩, fun h => by have := h 4; simp [exFx] at this⟩
+  intro i j hj hA
+  have hj4 : j = 4 := by simpa [exA] using hA
+  subst hj4
+  have : i < 5 := by
+    apply Classical.byContradiction
+    intro hn
+    have : exF.toDag.deps i = [] := by
+      simp [Dag.deps, FinDag.toDag, exF, List.getD_eq_getElem?_getD, List.getElem?_eq_none (by simp; omega : [[], [[0]], [[0]], [[2, 1], [1]], [[0]]].length ≤ i)]
+    rw [this] at hj; cases hj
+  have hdec : ∀ i < 5, 4 ∈ exF.toDag.deps i → exA i = true := by decide +kernel
+  exact hdec i this hj
+
+/-- the resumed run on the code BEFORE bc0a763: `0`, `1`, `4` answer from cache, `2` runs, and `3` fires on
+the arrival of `2`'s token alone — BEFORE the token of the re-run `1` is delivered — because `1`'s token of
+the first run is still in its trigger; the late token is then left over in `received 3` (harmless here:
+no input changed) -/
 def exRActs : List Act := [.start, .deliver, .deliver, .deliver, .deliver, .deliver, .exit]
-theorem exRSome : (rrunActs Cfg.repaired exF.toDag (resumeFrom RCfg.now exF.toDag exS) exRActs).isSome = true := by
-  decide
-def exRS : RS := (rrunActs Cfg.repaired exF.toDag (resumeFrom RCfg.now exF.toDag exS) exRActs).get exRSome
+theorem exRSome : (rrunActs Fix.none Cfg.repaired exF.toDag (resumeFrom RCfg.stale exF.toDag exS) exRActs).isSome = true := by
+  decide +kernel
+def exRS : RS := (rrunActs Fix.none Cfg.repaired exF.toDag (resumeFrom RCfg.stale exF.toDag exS) exRActs).get exRSome
 
 example : (exRS.s.phase, exRS.s.execLog, [0, 1, 2, 3, 4].map exRS.fcalls, exRS.s.received 3, exRS.s.errs)
-    = (.exited, [0, 2, 1, 4, 3], [0, 0, 1, 1, 0], [1], []) := by decide
-example : exRS.s.out 3 = .app 3 [.app 2 [.app 0 []], .app 1 [.app 0 []]] := by decide
-example : Resumed RCfg.now Cfg.repaired exF.toDag exS exRS := ⟨exRActs, (Option.some_get exRSome).symm⟩
+    = (.exited, [0, 2, 1, 4, 3], [0, 0, 1, 1, 0], [1], []) := by decide +kernel
+example : exRS.s.out 3 = .app 3 [.app 2 [.app 0 []], .app 1 [.app 0 []]] := by decide +kernel
+example : Resumed RCfg.stale Fix.none Cfg.repaired exF.toDag exS exRS := ⟨exRActs, (Option.some_get exRSome).symm⟩
+
+/-- the same on the code as it is now, with the changed input at `4`: `3` waits for both, `4` is executed again -/
+example : ((rrunActs exFx Cfg.repaired exF.toDag (resumeFrom RCfg.now exF.toDag exS)
+      [.start, .deliver, .deliver, .deliver, .deliver, .deliver, .exit]).map
+      (fun r => (r.s.phase, r.s.execLog, [0, 1, 2, 3, 4].map r.fcalls, r.s.out 4)))
+    = some (.exited, [0, 2, 1, 4, 3], [0, 0, 1, 1, 1], .app 9 [.app 0 []]) := by decide +kernel
 
 /-- a checkpoint cut with a child in flight: `4` has just finished, `1` is out on its executor, `2` has failed -/
 def ckActs : List Act := [.start, .deliver, .deliver]
-theorem ckSome0 : (runActs Cfg.repaired exF.toDag (init exF.toDag) ckActs).isSome = true := by decide
+theorem ckSome0 : (runActs Cfg.repaired exF.toDag (init exF.toDag) ckActs).isSome = true := by decide +kernel
 def ckS0 : S := (runActs Cfg.repaired exF.toDag (init exF.toDag) ckActs).get ckSome0
-theorem ckSome : (step Cfg.repaired exF.toDag ckS0 .deliver).isSome = true := by decide
+theorem ckSome : (step Cfg.repaired exF.toDag ckS0 .deliver).isSome = true := by decide +kernel
 def ckS : S := (step Cfg.repaired exF.toDag ckS0 .deliver).get ckSome
 
 example : CheckpointCut Cfg.repaired exF.toDag 4 ckS :=
-  ⟨ckActs, ckS0, .deliver, (Option.some_get ckSome0).symm, (Option.some_get ckSome).symm, by decide, by decide⟩
-example : ([0, 1, 2, 3, 4].map ckS.st, ckS.running) = ([.done, .out, .failed, .idle, .done], [1]) := by decide
+  ⟨ckActs, ckS0, .deliver, (Option.some_get ckSome0).symm, (Option.some_get ckSome).symm, by decide +kernel,
+   by decide +kernel⟩
+example : ([0, 1, 2, 3, 4].map ckS.st, ckS.running) = ([.done, .out, .failed, .idle, .done], [1]) := by
+  decide +kernel
 
 /-- the ownership tree `w ⊃ {a, m ⊃ {x, n ⊃ {y}}}` (ids w=0 a=1 m=2 x=3 n=4 y=5); `y` and `a` raise -/
 def exForest : Forest :=
   { parent := fun i => match i with | 1 => some 0 | 2 => some 0 | 3 => some 2 | 4 => some 2 | 5 => some 4 | _ => none,
     recovery := fun _ => true }
 
-example : exForest.recoveryFiles 3 [0, 1, 2, 3, 4, 5] [5, 1] = [0] := by decide
-example : [0, 1, 2, 3, 4, 5].filter (exForest.failedNodes 3 [5, 1]) = [0, 1, 2, 4, 5] := by decide
-example : exForest.checkpointDir 3 5 = 0 := by decide
+example : exForest.recoveryFiles 3 [0, 1, 2, 3, 4, 5] [5, 1] = [0] := by decide +kernel
+example : [0, 1, 2, 3, 4, 5].filter (exForest.failedNodes 3 [5, 1]) = [0, 1, 2, 4, 5] := by decide +kernel
+example : exForest.checkpointDir 3 5 = 0 := by decide +kernel
 
 end PwVerif.C08
 
 #print axioms PwVerif.C08.C08_resume_equations
 #print axioms PwVerif.C08.C08_resume_same_end
+#print axioms PwVerif.C08.C08_resume_same_end_changed
 #print axioms PwVerif.C08.C08_no_recall
 #print axioms PwVerif.C08.C08_rest_runs_once
 #print axioms PwVerif.C08.C08_resume_no_error
@@ -366,9 +552,14 @@ end PwVerif.C08
 #print axioms PwVerif.C08.C08_resume_repaired
 #print axioms PwVerif.C08.C08_resume_now_partial
 #print axioms PwVerif.C08.C08_recovery_now
+#print axioms PwVerif.C08.C08_resume_stale_partial
 #print axioms PwVerif.C08.C08_checkpoint_repaired
+#print axioms PwVerif.C08.C08_checkpoint_now_partial
 #print axioms PwVerif.C08.C08_inflight_cache_witness
 #print axioms PwVerif.C08.C08_inflight_cache_detail
+#print axioms PwVerif.C08.C08_stale_trigger_witness
+#print axioms PwVerif.C08.C08_stale_trigger_detail
+#print axioms PwVerif.C08.C08_stale_trigger_now
 #print axioms PwVerif.C08.C08_original_stale_cache_witness
 #print axioms PwVerif.C08.C08_recovery_root_only
 #print axioms PwVerif.C08.C08_checkpoint_at_root
